@@ -200,19 +200,17 @@ Qed.
 
 (* ================= preprocessor: addresses and labels ================= *)
 
-(* label names the lexer can produce never look like the assembler's generated names (finding F17 otherwise) *)
-Definition user_name (k : string) : bool :=
-  negb (String.prefix "_.wflip_area_start_" k) && negb (String.prefix ":wflips:" k).
+(* label names the lexer can produce (identifiers over [a-zA-Z_0-9.]: fj_parser.py id_re / dot_id_re) contain no `:`, so
+   they never look like the names `:wflips:<k>` that BinaryData._insert_wflip_label generates and assigns without a
+   duplicate check.  (A source label spelled `_.wflip_area_start_<k>` is possible; since the fix of finding F17,
+   commit 07c8d15, insert_segment rejects the collision, so no hypothesis about it is needed any more.) *)
+Definition user_name (k : string) : bool := negb (String.prefix ":wflips:" k).
 Definition lexical_stmt (s : stmt) : bool := match s with SLabel n _ => user_name n | _ => true end.
 Definition lexical_labels (P : list stmt) : bool := forallb lexical_stmt P.
 
-Lemma user_name_not_start k i : user_name k = true -> k <> wflip_start_label i.
-Proof.
-  unfold user_name, wflip_start_label. intros H ->. rewrite prefix_append in H. discriminate.
-Qed.
 Lemma user_name_not_wflip k i : user_name k = true -> k <> wflip_label i.
 Proof.
-  unfold user_name, wflip_label. intros H ->. rewrite prefix_append, andb_false_r in H. discriminate.
+  unfold user_name, wflip_label. intros H ->. rewrite prefix_append in H. discriminate.
 Qed.
 
 Section Pre.
@@ -257,7 +255,8 @@ Definition step_ops (st st1 : pstate) (s : stmt) : Prop :=
   | SPad _ _ => exists k, 0 <= k /\ p_addr st1 = p_addr st + k * dwd /\ p_ops st1 = LPadding k :: p_ops st
   | SSegment _ _ => p_addr st1 mod wd = 0
                     /\ p_ops st1 = LNewSeg (p_addr st1) WFLIP_NOT_INSERTED_YET :: patch_wflip (p_ops st) (p_addr st)
-  | SReserve _ _ => (p_addr st1 - p_addr st) mod wd = 0 /\ p_ops st1 = LReserve (p_addr st1) :: p_ops st
+  | SReserve _ _ => p_addr st <= p_addr st1 /\ (p_addr st1 - p_addr st) mod wd = 0
+                    /\ p_ops st1 = LReserve (p_addr st1) :: p_ops st
   | _ => False
   end.
 
@@ -327,14 +326,10 @@ Proof.
     destruct (eval_new None e) as [e'|] eqn:Ee; [|discriminate].
     destruct (exact_eval (p_labels st) e') as [a|] eqn:En; [|discriminate].
     destruct (negb (a mod wd =? 0)) eqn:Ha; [discriminate|].
-    apply negb_false_iff, Z.eqb_eq in Ha. injection H as <-.
-    unfold insert_segment in *. cbn [p_addr p_labels p_ops p_seg step_ops next_addr] in *.
-    assert (Hfresh : lookup (p_labels st) (wflip_start_label (p_seg st)) = None).
-    { destruct (lookup (p_labels st) (wflip_start_label (p_seg st))) as [x|] eqn:El; [|reflexivity].
-      apply Hk in El. destruct El as [Hu|[[i [Hi Hi']]|Hm]].
-      - now apply user_name_not_start with (i := p_seg st) in Hu.
-      - apply wflip_start_label_inj in Hi'. lia.
-      - discriminate. }
+    apply negb_false_iff, Z.eqb_eq in Ha. unfold insert_segment in H.
+    destruct (dict_mem (p_labels st) (wflip_start_label (p_seg st))) eqn:Edm; [discriminate|]. injection H as <-.
+    cbn [p_addr p_labels p_ops p_seg step_ops next_addr] in *.
+    assert (Hfresh : lookup (p_labels st) (wflip_start_label (p_seg st)) = None) by now apply dict_mem_lookup.
     assert (Hev : eval_expr (lookup lf) e = Some a).
     { unfold exact_eval in En. rewrite (eval_new_correct None (p_labels st) e e' Ee) in En. cbn [env_of] in En.
       eapply eval_mono; [|exact En]. eapply extends_trans; [|exact Hext]. now apply extends_dict_set_new. }
@@ -349,6 +344,7 @@ Proof.
   - (* reserve *)
     destruct (eval_new None e) as [e'|] eqn:Ee; [|discriminate].
     destruct (exact_eval (p_labels st) e') as [r|] eqn:En; [|discriminate].
+    destruct (r <? 0) eqn:Hneg; [discriminate|]. apply Z.ltb_ge in Hneg.
     destruct (negb (r mod wd =? 0)) eqn:Ha; [discriminate|].
     apply negb_false_iff, Z.eqb_eq in Ha. injection H as <-.
     unfold insert_reserve in *. cbn [p_addr p_labels p_ops p_seg step_ops next_addr] in *.
@@ -357,6 +353,7 @@ Proof.
       eapply eval_mono; eassumption. }
     rewrite Hev. repeat split; try assumption.
     + apply extends_refl.
+    + lia.
     + replace (p_addr st + r - p_addr st) with r by ring. exact Ha.
     + lia.
 Qed.
@@ -386,7 +383,8 @@ Fixpoint ops_rel (L : list placed) (ops : list lastop) : Prop :=
     | SSegment _ _ =>
       exists r, pl_next p mod wd = 0 /\ ops = LNewSeg (pl_next p) (code_end (pl_next p) L') :: r /\ ops_rel L' r
     | SReserve _ _ =>
-      exists r, (pl_next p - pl_addr p) mod wd = 0 /\ ops = LReserve (pl_next p) :: r /\ ops_rel L' r
+      exists r, pl_addr p <= pl_next p /\ (pl_next p - pl_addr p) mod wd = 0
+                /\ ops = LReserve (pl_next p) :: r /\ ops_rel L' r
     | _ => False
     end
   end.
@@ -463,7 +461,7 @@ Proof.
         exists (p :: L1), (LNewSeg (p_addr st1) (code_end (p_addr st1) L1) :: new1). repeat split; try assumption.
         -- cbn [ops_rel pl_stmt p pl_next pl_addr]. exists new1. repeat split; assumption.
         -- rewrite Hpatch, K2. cbn [patch_wflip code_end is_segment pl_stmt p pl_addr rev]. now rewrite <- app_assoc.
-      * destruct Hops as (K1 & K2).
+      * destruct Hops as (K0 & K1 & K2).
         exists (p :: L1), (LReserve (p_addr st1) :: new1). repeat split; try assumption.
         -- cbn [ops_rel pl_stmt p pl_next pl_addr]. exists new1. repeat split; assumption.
         -- rewrite Hpatch, K2. cbn [patch_wflip code_end is_segment pl_stmt p pl_next rev]. now rewrite <- app_assoc.
@@ -918,11 +916,11 @@ Qed.
 
 (* ================= the full statements (not yet proved in full: see Properties/C02.v) ================= *)
 
-(* guards = the recorded defects of the tree: F17 (lexical_labels), F18 (reserves_nonneg); the last
-   conjunct is about the code BEFORE the fix of F8 only (strict = false): it is true whenever strict = true *)
+(* lexical_labels = a property of parser output (no label is spelled `:wflips:...`), not a defect guard; the last
+   conjunct is about the code BEFORE the fix of F8 only (strict = false): it is true whenever strict = true.
+   The former guards of F17 / F18 are gone: both are fixed in the code and in the model. *)
 Definition C02_guards (ww ver : N) (strict : bool) (P : list stmt) (lbls : labels) : bool :=
-  lexical_labels P && reserves_nonneg ww P lbls
-  && ((ver <? 2)%N || strict || values_in_range ww P lbls).
+  lexical_labels P && ((ver <? 2)%N || strict || values_in_range ww P lbls).
 
 Definition C02_sound_statement : Prop :=
   forall ww ver strict P segs words lbls,
@@ -1458,6 +1456,19 @@ Qed.
 Definition res_nonneg (p : placed) : Prop :=
   match pl_stmt p with SReserve _ _ => pl_addr p <= pl_next p | _ => True end.
 
+(* since the fix of finding F18 (commit 825c6f7) the preprocessor rejects a negative reserve *)
+Lemma ops_rel_res_nonneg L : forall ops, ops_rel ww L ops -> Forall res_nonneg L.
+Proof.
+  induction L as [|p L IH]; intros ops H; [constructor|]. cbn [ops_rel] in H. unfold res_nonneg at 1.
+  destruct (pl_stmt p) eqn:E; try contradiction.
+  - destruct H as (? & ? & r & _ & _ & _ & _ & H). constructor; [now rewrite E|eauto].
+  - destruct H as (? & ? & ? & r & _ & _ & _ & _ & _ & H). constructor; [now rewrite E|eauto].
+  - destruct H as (? & r & _ & _ & _ & H). constructor; [now rewrite E|eauto].
+  - destruct H as (_ & H). constructor; [now rewrite E|eauto].
+  - destruct H as (r & _ & _ & H). constructor; [now rewrite E|eauto].
+  - destruct H as (r & Hle & _ & _ & H). constructor; [now rewrite E|eauto].
+Qed.
+
 Definition static_ok (wrF : wstate) (lF : labels) (p : placed) : Prop :=
   let a := pl_addr p in
   let a' := pl_next p in
@@ -1625,7 +1636,7 @@ Proof.
       split; [eapply pend_emitted_mono; [exact Hle|exact E0]|]. split; [|eapply wr_le_trans; eassumption].
       constructor; [now rewrite Est|exact Hst].
     + (* reserve *)
-      destruct Hrel as (r & Hn & -> & Hrel).
+      destruct Hrel as (r & _ & Hn & -> & Hrel).
       cbn [resolve_loop bind] in Hrun.
       destruct (resolve_step ww ver true st (LReserve (pl_next p))) as [st'| |] eqn:Estep; try discriminate.
       destruct (resolve_step_good _ _ _ _ _ _ Estep Hg) as [G' _].
@@ -1688,12 +1699,12 @@ Definition stmt_ok_static (ww : N) (img : image) (L : list placed) (lbls : label
 
 Theorem assemble_static_sound ww ver P segs words lbls :
   assemble_model ww ver true P = Ok (segs, words, lbls) ->
-  lexical_labels P = true -> reserves_nonneg ww P lbls = true ->
+  lexical_labels P = true ->
   exists L, place ww (lookup lbls) P 0 = Some L
             /\ loadable_segs ww segs = true
             /\ Forall (stmt_ok_static ww (image_of segs words) L lbls) L.
 Proof.
-  unfold assemble_model. intros H Hlex Hres.
+  unfold assemble_model. intros H Hlex.
   pose proof (wz_pos ww) as Hw. pose proof (M_pos ww) as HM.
   destruct (resolve_macros ww P) as [[ops l0]| |] eqn:Er; cbn [bind] in H; try discriminate.
   destruct (labels_resolve ww ver true ops l0) as [stF| |] eqn:El; cbn [bind] in H; try discriminate.
@@ -1720,10 +1731,7 @@ Proof.
     - split; constructor.
     - apply Z.mod_0_l. pose proof (wz_pos ww). unfold Layout.wd. lia.
     - lia. }
-  assert (Hresn : Forall res_nonneg L).
-  { unfold reserves_nonneg in Hres. rewrite Hpl in Hres. apply Forall_forall. intros p Hp.
-    rewrite forallb_forall in Hres. specialize (Hres _ Hp). unfold res_nonneg.
-    destruct (pl_stmt p); auto. now apply Z.leb_le. }
+  pose proof (ops_rel_res_nonneg ww L r0 Hrel) as Hresn.
   destruct (run_static ww ver L r0 st0 st1 stF (code_end 0 L0) [] Eloop El Hrel
               (place_chain ww _ _ _ _ Hpl) S0 Hce Hresn G0) as (_ & Hst & _).
   pose proof (place_next ww _ _ _ _ Hpl) as Hnext.
@@ -1772,12 +1780,12 @@ Qed.
    (wflip_chain_ok: sharing-table invariant + auxiliary placement). *)
 Theorem assemble_sound_modulo_chains ww ver P segs words lbls :
   assemble_model ww ver true P = Ok (segs, words, lbls) ->
-  lexical_labels P = true -> reserves_nonneg ww P lbls = true ->
+  lexical_labels P = true ->
   (forall L, place ww (lookup lbls) P 0 = Some L -> Forall (wflip_chain_ok ww (image_of segs words) L lbls) L) ->
   Denotes ww (image_of segs words) P lbls.
 Proof.
-  intros H Hlex Hres Hchains.
-  destruct (assemble_static_sound _ _ _ _ _ _ H Hlex Hres) as (L & Hpl & Hload & Hst).
+  intros H Hlex Hchains.
+  destruct (assemble_static_sound _ _ _ _ _ _ H Hlex) as (L & Hpl & Hload & Hst).
   exists L. split; [exact Hpl|]. split; [exact Hload|].
   specialize (Hchains L Hpl). apply Forall_forall. intros p Hp.
   rewrite Forall_forall in Hst, Hchains. specialize (Hst p Hp). specialize (Hchains p Hp).
@@ -1906,7 +1914,7 @@ Qed.
 Lemma keys_no_prefix st : keys_inv st -> forall k v, lookup (p_labels st) k = Some v -> prefix_wflips k = false.
 Proof.
   intros Hk k v H. apply Hk in H. destruct H as [Hu | [[j [_ E]] | E]]; try subst k.
-  - unfold user_name in Hu. apply andb_true_iff in Hu. destruct Hu as [_ Hu]. now apply negb_true_iff in Hu.
+  - unfold user_name in Hu. now apply negb_true_iff in Hu.
   - reflexivity.
   - reflexivity.
 Qed.
